@@ -364,7 +364,13 @@ func (c *Consensus) SubscribePriority(fn func(ctx context.Context, duty core.Dut
 			return nil
 		}
 
-		return fn(ctx, duty, msg)
+		// Clone before calling each subscriber.
+		clone, ok := proto.Clone(msg).(*pbv1.PriorityResult)
+		if !ok {
+			return errors.New("clone priority result")
+		}
+
+		return fn(ctx, duty, clone)
 	})
 }
 
